@@ -145,6 +145,10 @@ class Ctx:
                         self.probes[a] = Node(a, id=f"probe{k}")
                         k += 1
         self.twin = self.root.copy()
+        # a copy of an inner node: a detached tree whose root still carries its source's parent link
+        self.inner = self.root.children[0].copy() if self.root.children else None
+        if self.inner is not None:
+            self.nodes = self.nodes + gtree.preorder(self.inner)
 
 
 def _errs_view(errs):
@@ -345,7 +349,8 @@ OPD = dict(OPS)
 
 
 def snapshot(c):
-    return gtree.identity_snapshot([c.root, c.twin], extra_nodes=list(c.probes.values()))
+    roots = [c.root, c.twin] + ([c.inner] if c.inner is not None else [])
+    return gtree.identity_snapshot(roots, extra_nodes=list(c.probes.values()))
 
 
 def run_sequence(g, seq, baseline, case):
@@ -363,10 +368,20 @@ def run_sequence(g, seq, baseline, case):
             probs.append(problem("tree_modified", dict(case, culprit=name), expected="snapshot unchanged", observed=d,
                                  op=name, field=d.get("field", "registry")))
             return probs, None
-        if baseline is not None and k == len(seq) - 1 and name in baseline and core.jsonable(res) != baseline[name]:
+        if baseline is not None and k == len(seq) - 1 and name in baseline and canon_result(c, res) != baseline[name]:
             probs.append(problem("result_depends_on_history", case, expected=repr(baseline[name])[:300],
-                                 observed=repr(core.jsonable(res))[:300], op=name, after=seq[0]))
-    return probs, res
+                                 observed=repr(canon_result(c, res))[:300], op=name, after=seq[0]))
+    return probs, (canon_result(c, res) if res is not None else None)
+
+
+def canon_result(c, res):
+    """results as text, with the freshly minted ids of the copies replaced by positional labels (they differ per build)"""
+    import json
+    s = json.dumps(core.jsonable(res), sort_keys=True, default=repr)
+    labelled = (gtree.preorder(c.inner) if c.inner is not None else []) + gtree.preorder(c.twin)
+    for j, n_ in enumerate(labelled):
+        s = s.replace(n_.id, f"copy-node-{j}")
+    return s
 
 
 def work(item):
@@ -383,7 +398,7 @@ def work(item):
             n += 1
             acc.add_problems(p)
         if res is not None:
-            baseline[nm] = core.jsonable(res)
+            baseline[nm] = res
     for a in (first_ops if first_ops is not None else names):
         rest = itertools.product(names, repeat=k - 1) if k >= 2 else []
         for tail in rest:
@@ -412,7 +427,7 @@ def replay(case):
     for nm in seq[-1:]:
         _, res = run_sequence(g, [nm], None, {})
         if res is not None:
-            baseline[nm] = core.jsonable(res)
+            baseline[nm] = res
     probs, _ = run_sequence(g, seq, baseline, {k: v for k, v in case.items() if k != "culprit"})
     return probs
 
